@@ -80,12 +80,12 @@ let () =
   (* the effect of a num_blocked update takes place at its NBADD record; the unit it is made for is named
      by the next record of the same actor (NBWHO): look ahead *)
   let arr = Array.of_list lines in
-  let who_of : (int, string) Hashtbl.t = Hashtbl.create 64 in
+  let who_of : (int, string * bool) Hashtbl.t = Hashtbl.create 64 in
   let pend : (string, int) Hashtbl.t = Hashtbl.create 8 in
   Array.iteri (fun i l -> match words l with
       | actor :: "NBADD" :: _ -> Hashtbl.replace pend actor i
-      | actor :: "NBWHO" :: t :: _ -> (match Hashtbl.find_opt pend actor with
-          | Some j -> Hashtbl.replace who_of j t; Hashtbl.remove pend actor | None -> ())
+      | actor :: "NBWHO" :: t :: _ :: c :: _ -> (match Hashtbl.find_opt pend actor with
+          | Some j -> Hashtbl.replace who_of j (t, int_of_string ("0x" ^ c) land 0x100 <> 0); Hashtbl.remove pend actor | None -> ())
       | _ -> ()) arr;
   let status = ref "" in
   let unitstat = ref [] and quiesce = ref [] and xjoin = ref [] in
@@ -193,7 +193,7 @@ let () =
            let p' = pool_id (hex p) and inc = (hex d = 1) in
            let old = z_of_int (let v = hex old in if v >= 0x80000000 then v - 0x100000000 else v) in
            (match Hashtbl.find_opt who_of ln with
-            | Some t -> let u = unit_id ln (hex t) in apply ln desc (ENb (nat_of p', inc, old, nat_of u)) [u] [p'] []
+            | Some (t, ho) -> let u = unit_id ln (hex t) in apply ln desc (ENb (nat_of p', inc, old, nat_of u, ho)) [u] [p'] []
             | None -> if !status <> "STUCK" then raise (Mismatch (Printf.sprintf "line=%d NBADD without a following NBWHO by the same actor" ln)))
          | "NBWHO", _ -> ()
          | "UFREE", [t; _; _] -> let u = unit_id ln (hex t) in apply ln desc (EFree (nat_of u)) [u] [] []
